@@ -177,6 +177,31 @@ def factory_interp(prog):
     def q(I, st, r):
         return I.read(st, r.cell, r.path)
 
+    def m_stop(I, st, f, args, fr):
+        r = args[0]
+        held = None
+        if isinstance(r, Ref):
+            for k in range(len(r.path), -1, -1):
+                v = I.read(st, r.cell, r.path[:k])
+                if isinstance(v, Enum) and v.ty == 'Option' and v.variant == 'Some':
+                    v = v.fields[0]
+                if isinstance(v, Agg) and v.ty == 'WorkerProperties':
+                    dw = prog.crate.struct('WorkerProperties')
+                    held = (jobs_of(I, st, v.fields[dw['fields'].index('message_queue')]), len(v.fields[dw['fields'].index('curr_jobs')].fields))
+                    break
+        st.emit('STOP_WORKER', held)
+        I.stats['models_used'].add('ActorCell::stop of a worker actor (recorded together with what its record still holds)')
+        return I.ret(st, UNIT)
+    I.override.append((re.compile(r'(^|::)ActorRef::<.*>::stop$|(^|::)ActorCell::stop$'), m_stop))
+
+    def m_get_id(I, st, f, args, fr):
+        return I.ret(st, Opaque('ActorId', ident='worker-actor-id'))
+    I.override.append((re.compile(r'(^|::)ActorRef::<.*>::get_id$|(^|::)ActorCell::get_id$'), m_get_id))
+
+    @I.model(r'^<(\w+::)*ActorRef<.*> as Deref>::deref$', 'ActorRef deref')
+    def m_deref(I, st, f, args, fr):
+        return I.ret(st, args[0])
+
     @I.model(QUEUE + r'len$', 'Queue::len (FIFO contract)')
     def m_qlen(I, st, f, args, fr):
         return I.ret(st, I.mk_int(len(models_std.deref_val(I, st, args[0]).fields), 'usize'))
@@ -321,7 +346,81 @@ def check_factory(ctx, prog):
         ctx.note_witness('C13.factory.' + w_, w_ in seen)
 
 
+def check_finished(ctx, prog):
+    """FactoryState::worker_finished_job: the completed job leaves, the next one is handed over, and a draining worker is retired only when it holds nothing"""
+    fn = 'FactoryState::<TKey, TMsg, TWorker, TWorkerStart, TRouter, TQueue>::worker_finished_job'
+    body = prog.find_fn(fn)
+    if body is None:
+        raise Inconclusive(fn + ' not found')
+    ctx.encoded(prog, body)
+    d = prog.crate.struct('FactoryState')
+    dw = prog.crate.struct('WorkerProperties')
+    if 'is_draining' not in dw['fields']:
+        raise Inconclusive('WorkerProperties.is_draining not found')
+    seen = set()
+    for wq in range(0, 3):
+        for draining in (False, True):
+            for fq in (0, 1):
+                I = factory_interp(prog)
+                st = State()
+                fv, limit = mk_factory(prog, I, st, ['f%d' % i for i in range(fq)], None, 'NotDraining')
+                w = books.mk_worker(prog, I, st, [K[i % 2] for i in range(wq)], (K[0],))
+                wf = list(w.fields)
+                wf[dw['fields'].index('is_draining')] = z3.BoolVal(draining)
+                wf[dw['fields'].index('discard_handler')] = models_std.some(BoxV(st.alloc(Opaque('handler')), 'Arc'))
+                wf[dw['fields'].index('actor')] = Opaque('ActorRef', ident='worker-actor')
+                w = Agg('WorkerProperties', wf)
+                ff = list(fv.fields)
+                ff[d['fields'].index('pool')] = Agg('HashMap', (Agg('()', (I.mk_int(0, 'usize'), w)),))
+                ff[d['fields'].index('worker_by_actor')] = Agg('HashMap', (Agg('()', (Opaque('ActorId', ident='worker-actor-id'), I.mk_int(0, 'usize'))),))
+                fv = Agg('FactoryState', ff)
+                fc = st.alloc(fv)
+                outs = I.run_body(st, body, [Ref(fc, (), True), I.mk_int(0, 'usize'), books.key(K[0])])
+                ctx.absorb(I)
+                ctx.paths += len(outs)
+                for n, o in enumerate(outs):
+                    name = 'factory.finished.wq%d.%s.fq%d.path%d' % (wq, 'draining' if draining else 'active', fq, n)
+                    cex = (lambda wq=wq, draining=draining, fq=fq, o=o: (lambda m: replay_finished(wq, draining, fq, o, m)))()
+                    if o.kind != 'ret':
+                        lp.record(ctx, name, o.st, {'no_panic': False}, 'C13.finished', on_cex=cex)
+                        continue
+                    fa = I.read(o.st, fc, ())
+                    pool = fa.fields[d['fields'].index('pool')]
+                    in_pool = [e.fields[1] for e in pool.fields]
+                    handed, discarded, _rej = fates(o.st.trace)
+                    routed = [e[1] for e in o.st.trace if e[0] == 'ROUTED']
+                    stops = [e for e in o.st.trace if e[0] == 'STOP_WORKER']
+                    kept_f = jobs_of(I, o.st, fa.fields[d['fields'].index('queue')])
+                    kept_w = jobs_of(I, o.st, in_pool[0].fields[dw['fields'].index('message_queue')]) if in_pool else []
+                    before = ['q%d' % i for i in range(wq)] + ['f%d' % i for i in range(fq)]
+                    dj = [x[1] for x in discarded]
+                    claims = {'retired_iff_removed_from_the_pool': bool(stops) == (not in_pool)}
+                    if not in_pool:
+                        # the record and its actor are gone: whatever it still held, and whatever was handed to it in this very step, is lost
+                        held = stops[0][1] if stops and stops[0][1] is not None else None
+                        claims['a_retired_worker_holds_no_job'] = held is not None and held[0] == [] and held[1] == 0 and not handed
+                        claims['only_a_draining_worker_is_retired'] = draining
+                        seen.add('retired')
+                    lost = [] if in_pool else (kept_w + handed)
+                    claims['every_job_has_exactly_one_fate'] = sorted(kept_f + kept_w + handed + routed + dj) == sorted(before)
+                    if handed:
+                        seen.add('next_job_handed')
+                    if draining and in_pool:
+                        seen.add('draining_worker_kept_while_busy')
+                    lp.record(ctx, name, o.st, claims, 'C13.finished', sample={'worker_queue': wq, 'draining': draining, 'factory_queue': fq, 'handed': handed, 'routed': routed, 'retired': not in_pool} if n == 0 else None, on_cex=cex)
+    for w_ in ('retired', 'next_job_handed', 'draining_worker_kept_while_busy'):
+        ctx.note_witness('C13.finished.' + w_, w_ in seen)
+
+
 _replayed = {}
+
+
+def replay_finished(wq, draining, fq, o, model):
+    import C13_replay
+    k = ('finished', wq, draining, fq)
+    if k not in _replayed:
+        _replayed[k] = C13_replay.replay_finished(wq, draining, fq)
+    return _replayed[k]
 
 
 def expired_flags(model, ids):
@@ -374,6 +473,7 @@ def run(ctx):
                         '(RateLimited, Backlog; never Backlog when given a worker hint)', 'the discard handler and the acceptance port (Job::accept / reject) are recorded as events']
     check_worker(ctx, prog)
     check_factory(ctx, prog)
+    check_finished(ctx, prog)
 
 
 def replay_file(path):
